@@ -270,6 +270,19 @@ pub fn index_invariants(db: &FixtureDatabase, root: &str) -> Vec<String> {
             bad.push("usages and reverse index differ in multiplicity (duplicate)".to_string());
         }
     }
+    // what a reader makes of the index: no definition's reference list names a usage twice (readers may
+    // not rely on any particular order of the entries concurrent analyses leave in the shared vectors)
+    let defs: Vec<pytest_language_server::FixtureDefinition> = db.definitions.iter().flat_map(|e| e.value().clone()).collect();
+    for d in &defs {
+        let refs = db.find_references_for_definition(d);
+        let mut keys: Vec<(String, usize, usize)> = refs.iter().map(|u| (rel(&u.file_path, root), u.line, u.start_char)).collect();
+        let n = keys.len();
+        keys.sort();
+        keys.dedup();
+        if keys.len() != n {
+            bad.push(format!("the reference list of {} ({}:{}) names a usage more than once ({} entries, {} distinct)", d.name, rel(&d.file_path, root), d.line, n, keys.len()));
+        }
+    }
     bad
 }
 
